@@ -246,6 +246,23 @@ func (s *Service) Start(
 	ctx context.Context,
 	pipelineID string,
 ) error {
+	return s.start(ctx, pipelineID, nil)
+}
+
+// errSuperseded is returned by start when the run it was asked to restart is
+// no longer the published run of its pipeline.
+var errSuperseded = cerrors.New("run has been superseded")
+
+// start is Start; if onlyIfCurrent is not nil (error recovery restarting that
+// run) it starts the pipeline only if that run is still the published one,
+// checked under the start lock: a user Start that was under way while the
+// restart waited for the lock has replaced it, and its run - or that run's own
+// recovery - owns the pipeline now.
+func (s *Service) start(
+	ctx context.Context,
+	pipelineID string,
+	onlyIfCurrent *runnablePipeline,
+) error {
 	// One start per pipeline at a time. The check below and the moment the
 	// status becomes "running" (at the end of runPipeline) are far apart: a
 	// user Start that arrives while error recovery is restarting the pipeline
@@ -253,6 +270,11 @@ func (s *Service) Start(
 	// pipeline were started.
 	unlock := s.lockStart(pipelineID)
 	defer unlock()
+	if onlyIfCurrent != nil {
+		if cur, ok := s.runningPipelines.Get(pipelineID); !ok || cur != onlyIfCurrent {
+			return errSuperseded
+		}
+	}
 
 	pl, err := s.pipelines.Get(ctx, pipelineID)
 	if err != nil {
@@ -377,8 +399,8 @@ func (s *Service) StartWithBackoff(ctx context.Context, rp *runnablePipeline) er
 		return cerrors.FatalError(pipeline.ErrForceStop)
 	}
 
-	err := s.Start(ctx, rp.pipeline.ID)
-	if cerrors.Is(err, pipeline.ErrPipelineRunning) {
+	err := s.start(ctx, rp.pipeline.ID, rp)
+	if cerrors.Is(err, pipeline.ErrPipelineRunning) || cerrors.Is(err, errSuperseded) {
 		// a user Start got in first and the pipeline is running again: that
 		// run owns the pipeline now, there is nothing left to recover
 		return nil
